@@ -235,6 +235,9 @@ func fragDump(g *Gen, n int, o *Out) {
 		if ans == "P" {
 			o.finding(Finding{Property: "C19", Kind: "failing-input", What: "ExpressionDump panicked", Request: req, Detail: text})
 		}
+		if strings.HasPrefix(ans, "ok-writer-dependent") {
+			o.finding(Finding{Property: "C19", Kind: "failing-input", What: "ExpressionDump writes a different rendering into a writer that only implements Write than into a bytes.Buffer", Request: req, Detail: text})
+		}
 		_, ans2 := dumpCase(text, ind, lvl)
 		if ans != ans2 {
 			o.finding(Finding{Property: "C19", Kind: "failing-input", What: "the same tree rendered differently twice", Request: req, Detail: text})
@@ -496,6 +499,18 @@ func fragHist(g *Gen, n int, o *Out) {
 
 // ---------------------------------------------------------------- C14
 
+// confusableKeys: groups of distinct map keys that orderings other than plain string order may tie
+var confusableKeys = [][]string{
+	{"8", "010", "0o10", "0b1000", "0x8", "+8", "08", " 8", "8 ", "8.0"},
+	{"16", "0x10", "0X10", "020", "1_6"},
+	{"0", "-0", "00", "+0", "0x0"},
+	{"1", "01", "1e0", "true", "0x1"},
+	{"a", "A", "a ", " a", "a\t"},
+	{"ab", "ba", "aB", "Ab"},
+	{"é", "e\u0301", "e"},
+	{"k1", "k01", "k1 ", "K1"},
+}
+
 func fragDet(g *Gen, n int, o *Out) {
 	reps := 40
 	for i := 0; i < n; i++ {
@@ -520,6 +535,21 @@ func fragDet(g *Gen, n int, o *Out) {
 				m[k] = []interface{}{g.r.Intn(3), "s"}
 			default:
 				m[k] = map[string]interface{}{"x": "str", "y": g.r.Intn(2) == 0}
+			}
+		}
+		if g.r.Intn(3) == 0 {
+			// keys that a plausible "smarter" ordering would tie: same number in different spellings,
+			// same letters in different case / with blanks, same characters in another order
+			grp := confusableKeys[g.r.Intn(len(confusableKeys))]
+			for _, j := range g.r.Perm(len(grp))[:2+g.r.Intn(2)] {
+				switch g.r.Intn(3) {
+				case 0:
+					m[grp[j]] = map[string]interface{}{"x": g.r.Intn(3)}
+				case 1:
+					m[grp[j]] = g.r.Intn(3)
+				default:
+					m[grp[j]] = map[string]interface{}{"x": "str", "y": g.r.Intn(2) == 0}
+				}
 			}
 		}
 		datum := map[string]interface{}{"m": m}
@@ -564,6 +594,44 @@ func fragDet(g *Gen, n int, o *Out) {
 			}
 			if len(iseen) > 1 {
 				o.finding(Finding{Property: "C14", Kind: "failing-input", What: fmt.Sprintf("repeated Evaluate over an interface-keyed map gives different outcomes %v", iseen), Request: lastReq(o), Detail: text})
+			}
+		}
+		// concretely typed maps whose entries mix decisive and erroring elements
+		{
+			type pn struct{ N int }
+			keys := make([]string, 0, len(m))
+			for k := range m {
+				keys = append(keys, k)
+			}
+			ml, mp, ms := map[string][]int{}, map[string]*pn{}, map[MyStr]string{}
+			for _, k := range keys {
+				switch g.r.Intn(3) {
+				case 0:
+					ml[k], mp[k], ms[MyStr(k)] = []int{1}, nil, "no"
+				case 1:
+					ml[k], mp[k], ms[MyStr(k)] = []int{1, g.r.Intn(3)}, &pn{g.r.Intn(2)}, "yes"
+				default:
+					ml[k], mp[k], ms[MyStr(k)] = []int{2, 5, 7}, &pn{1}, ""
+				}
+			}
+			tdatum := map[string]interface{}{"ml": ml, "mp": mp, "ms": ms}
+			texts := []string{
+				fmt.Sprintf("%s ml as k, v { v.1 == %d }", c.Op, g.r.Intn(3)),
+				fmt.Sprintf("%s mp as _, v { v.N != 0 }", c.Op),
+				fmt.Sprintf("%s ms as k, v { v == \"yes\" or Missing == 1 }", c.Op),
+				fmt.Sprintf("not (%s ml as v { v matches \"^[a-k]\" and ml.k1 is empty })", c.Op),
+			}
+			ttext := texts[g.r.Intn(len(texts))]
+			tfirst := evalText(o, nil, ttext, tdatum)
+			tseen := map[string]int{tfirst: 1}
+			if tev, _ := create(ttext, nil); tev != nil {
+				for r := 0; r < reps; r++ {
+					tseen[safeEvaluate(tev, tdatum)]++
+				}
+			}
+			o.count("det-typed:" + norm(tfirst))
+			if len(tseen) > 1 {
+				o.finding(Finding{Property: "C14", Kind: "failing-input", What: fmt.Sprintf("repeated Evaluate over a concretely typed map gives different outcomes %v", tseen), Request: lastReq(o), Detail: ttext})
 			}
 		}
 		// filters over maps
